@@ -46,7 +46,7 @@ MISSPELL = {"class": ["clas", "Class", "klass"], "namespace": ["namespce", "Name
             "enum": ["enumm", "Enum"]}
 PROBES = ["accepted_after_corruption", "rejected_after_corruption", "multi_file_matlab",
           "file_ends_in_line_comment_no_newline", "prior_outputs_present", "read_error_injected",
-          "eio_mid_read", "truncated_inside_declaration", "must_reject_case", "valid_input_accepted",
+          "eio_mid_read", "truncated_inside_declaration", "must_reject_case", "valid_input_accepted", "crlf_line_endings",
           "o4_reference_compared", "nonascii_input", "failed_after_parsing"]
 
 
@@ -356,6 +356,9 @@ def gen_case(tape, batch):
             text += TAILS[tape.weighted([4, 2, 2, 1, 1, 1], "tail")]
         ext = tape.wpick([(".i", 4), (".h", 1)], "ext")
         path = "%s/part%d%s" % (R + "/src", k, ext)
+        if tape.bool(0.06, "crlf"):
+            text = text.replace("\n", "\r\n")        # a file edited on Windows: the same text to a text-mode reader
+            case.setdefault("crlf", True)
         case["inputs"][path] = text.encode("utf-8")
         case["files"].append(path)
     case["corruptions"] = kinds_all
@@ -633,6 +636,8 @@ def run_case(tape, batch):
         w.probe("multi_file_matlab")
     if any(tx.rstrip(" ").endswith("no newline") for tx in texts[:-1]):
         w.probe("file_ends_in_line_comment_no_newline")
+    if case.get("crlf"):
+        w.probe("crlf_line_endings")
     if case["prior"]:
         w.probe("prior_outputs_present")
     if any(ord(c) > 127 for tx in texts for c in tx):
